@@ -17,6 +17,7 @@ CHECKS = {
         'legs': [
             {'engine': 'protosim', 'config': 'asan', 'variant': 'bake', 'runs': [20000, 2000000]},
             {'engine': 'protosim', 'config': 'asan32', 'variant': 'bake', 'runs': [4000, 400000]},
+            {'engine': 'protosim', 'config': 'asan', 'variant': 'bakesweep', 'runs': [48, 6000]},
         ],
         'sigs_per_leg': True,
         'rule': ('a case is one simulated session of BMQV, BSTS, BPACE or BAUTH between two party tasks that share only the simulated channel, followed by a '
@@ -25,7 +26,9 @@ CHECKS = {
                  'generator tapes (uniform / first draws 0 or FF.. forcing rejection sampling) x 0..2 channel faults attached to a message (single/multi octet substitution, '
                  'bad-point substitution, truncate, extend, drop, duplicate, replay from the previous session, short reads, read/write errors, stall) x inconsistent configuration '
                  '(different passwords, private key not matching the certificate, different hello, wrong peer certificate); distinct = distinct (protocol, l, flags, drivers, mismatch, '
-                 'fault kinds x messages, who accepted) tuples; every session is non-trivial (two parties exchange >= 2 messages)'),
+                 'fault kinds x messages, who accepted) tuples; every session is non-trivial (two parties exchange >= 2 messages). '
+                 'Leg bakesweep: one run draws a configuration and then alters EVERY octet position of EVERY message in turn (one session per position): '
+                 'the single-octet quantifier is enumerated completely for each configuration drawn (quick: l = 128; thorough: all three curves)'),
         'real': REAL_ALL,
         'stub': ['the transport between the parties (simulated message channel behind the library\'s read_i/write_i)', 'both parties\' generators (seeded tapes)', 'certificate validation callback (prefix || public key, as in the repository\'s own test)'],
         'assumptions': [
@@ -35,7 +38,7 @@ CHECKS = {
             'fragmented delivery counts as honest only where the reader reassembles (BSTS M2/M3 in the Run drivers, every message in the step hosts)',
             'MAC forgery / hash collision probabilities (2^-64) are ignored',
         ],
-        'mandatory_probes': {'any': ['probe.honest_sessions', 'probe.tampered_sessions', 'probe.bsts_multiblock_path', 'probe.rejection_sampled', 'probe.read_timed_out', 'fault.corrupt1', 'fault.point_subst', 'fault.replay', 'fault.fragment']},
+        'mandatory_probes': {'any': ['probe.honest_sessions', 'probe.tampered_sessions', 'probe.bsts_multiblock_path', 'probe.rejection_sampled', 'probe.read_timed_out', 'fault.corrupt1', 'fault.point_subst', 'fault.replay', 'fault.fragment', 'probe.sweep_configs_completed']},
     },
     'C17': {
         'level': 'exploration',
@@ -61,7 +64,7 @@ CHECKS = {
             'a single flipped bit anywhere in a stored certificate or container must make validation/unwrapping fail (forgery probability 2^-64 ignored)',
             'the hidden global RNG (rngIsValid()/rngStepR inside CVC signing) is absent in two thirds of the cvc runs and created on simulated entropy (H-rng-es) in one third',
         ],
-        'mandatory_probes': {'any': ['probe.sm_instep_roundtrip', 'probe.sm_altered_checked', 'probe.sm_wrong_parity_refused', 'probe.cvc_parse_back', 'probe.cvc_global_rng_present', 'fault.cvc_clock_outside_validity', 'fault.cvc_stored_bit_flip', 'probe.pki_intact_roundtrip', 'fault.pki_wrong_password']},
+        'mandatory_probes': {'any': ['probe.sm_instep_roundtrip', 'probe.sm_altered_checked', 'probe.sm_wrong_parity_refused', 'probe.sm_sweep_positions', 'probe.cvc_parse_back', 'probe.cvc_global_rng_present', 'fault.cvc_clock_outside_validity', 'fault.cvc_stored_bit_flip', 'probe.pki_intact_roundtrip', 'fault.pki_wrong_password']},
     },
     'C18': {
         'level': 'exploration',
